@@ -155,6 +155,26 @@ theorem foreign_exit_code_counterexample :
     (Cmd.build [(true, some (.app 100 (.plain true)))]).run.printed = [] ∧
     (Cmd.build [(true, some (.app 100 (.plain true)))]).run.importNotFound = false := by decide
 
+/-- WHERE a problem in the sources is met decides how it is reported (as coded).  The header scan
+    of a `.proto` file (`file.proto#include_package_files=true` scans every file of the module
+    before anything is compiled) returns an annotation set; inside a controller method
+    (`buf ls-files`, `build`, `lint`, `breaking`: first line) it is printed and the status is 100
+    with no "Failure:" line.  The same value returned by a step that runs directly in the
+    command (`buf ls-files --include-imports`, `buf dep graph`: second line) is NOT printed: status
+    1 and a "Failure:" line.  And if the scan error were no annotation set at all (third line: a
+    plain error, what a missing conversion in bufmodule would give) the controller method has
+    nothing to print either: status 1 - which is why the conversion is part of the property. -/
+theorem header_scan_error_where_it_is_met :
+    ((Cmd.lsFiles [(false, none), (true, some (.annotSet ex1 []))]).run.exit = 100 ∧
+     (Cmd.lsFiles [(false, none), (true, some (.annotSet ex1 []))]).run.printed = [ex1] ∧
+     (Cmd.lsFiles [(false, none), (true, some (.annotSet ex1 []))]).run.failureLine = false) ∧
+    ((Cmd.lsFiles [(false, none), (true, none), (false, some (.annotSet ex1 []))]).run.exit = 1 ∧
+     (Cmd.lsFiles [(false, none), (true, none), (false, some (.annotSet ex1 []))]).run.printed = [] ∧
+     (Cmd.lsFiles [(false, none), (true, none), (false, some (.annotSet ex1 []))]).run.failureLine = true) ∧
+    ((Cmd.build [(true, some (.plain true))]).run.exit = 1 ∧
+     (Cmd.build [(true, some (.plain true))]).run.printed = [] ∧
+     (Cmd.build [(true, some (.plain true))]).run.failureLine = true) := by decide
+
 -- non-vacuity: each status is reached, by each kind of cause
 private def ok1 : CStep := (true, none)
 private def annStep (l : List Annot) : Step := match l with | [] => none | a :: t => some (.annotSet a t)
@@ -289,6 +309,126 @@ theorem format_invalid_mode_is_operational (m : FmtMode) (sw : Bool) (ctl : List
     (formatFull m sw ctl f d io).2 = FmtEffects.none := by
   simp only [Cmd.run, format, formatFull, h, Bool.not_false, if_true]
   refine ⟨?_, ?_, ?_⟩ <;> first | rfl | decide
+
+/-! ## `buf format -w`: what is on disk afterwards
+
+`buf format` owns the output modes; the verdict of `--exit-code` ("a difference exists") and of
+the run after `-w` ("nothing to report") are only right when `-w` leaves in every targeted file
+exactly the formatter's output.  The walk is modelled as coded (`rewriteWalk`: path order, open
+with O_TRUNC, first failing open ends it); the formatter is a parameter (C07). -/
+
+/-- A `-w` run in which every targeted file parses and every changed file can be opened: it does
+    not fail, EVERY file holds what it is to hold — the formatter's output if targeted, its old
+    content otherwise (byte for byte, whatever the lengths) — and the difference it reports is
+    "some targeted file differed from the formatter's output". -/
+theorem write_leaves_formatter_output (fs : List WFile) (hp : fmtStepOk fs = true)
+    (ho : ∀ f ∈ fs, f.changed = true → f.openable = true) :
+    formatWrite fs = (fs.map (fun f => (f.path, f.want)), false, fs.any (·.changed)) := by
+  unfold formatWrite
+  rw [hp, if_pos rfl, rewriteWalk_clean writeTrunc fs ho]
+  simp only [WFile.written_eq_want]
+
+/-- The run after `-w` is clean: with a formatter that reproduces its own output (C07's
+    idempotence, needed only on the outputs written) no file is among the changed paths any more
+    — `--exit-code` gives 0, `-d` prints nothing (`format_formatted_input_exits_zero`) — and the
+    second run leaves every file as the first one left it. -/
+theorem write_second_run_clean (F : Str → Option Str) (fs : List WFile) (hp : fmtStepOk fs = true)
+    (hF : ∀ f ∈ fs, f.target = true → ∀ t, f.fmt = some t → F t = some t) :
+    (nextRun F fs).any (·.changed) = false ∧
+    formatWrite (nextRun F fs) = (fs.map (fun f => (f.path, f.want)), false, false) := by
+  have hfmt : ∀ f ∈ fs, f.target = true → ∃ t, f.fmt = some t ∧ f.want = t ∧ F f.want = some t := by
+    intro f hf ht
+    have h := (List.all_eq_true.mp hp) f hf
+    simp only [ht, Bool.not_true, Bool.false_or] at h
+    obtain ⟨t, hft⟩ := Option.isSome_iff_exists.mp h
+    refine ⟨t, hft, ?_, ?_⟩
+    · simp [WFile.want, ht, hft]
+    · have : f.want = t := by simp [WFile.want, ht, hft]
+      rw [this]; exact hF f hf ht t hft
+  have hch : ∀ g ∈ nextRun F fs, g.changed = false := by
+    intro g hg
+    obtain ⟨f, hf, rfl⟩ := List.mem_map.mp hg
+    cases ht : f.target
+    · simp [WFile.changed, ht]
+    · obtain ⟨t, _, hw, hFw⟩ := hfmt f hf ht
+      rw [hw] at hFw
+      simp [WFile.changed, ht, hw, hFw]
+  have hany : (nextRun F fs).any (·.changed) = false := by
+    rw [List.any_eq_false]
+    intro g hg; rw [hch g hg]; exact Bool.false_ne_true
+  have hp2 : fmtStepOk (nextRun F fs) = true := by
+    unfold fmtStepOk
+    rw [List.all_eq_true]
+    intro g hg
+    obtain ⟨f, hf, rfl⟩ := List.mem_map.mp hg
+    cases ht : f.target
+    · simp [ht]
+    · obtain ⟨t, _, _, hFw⟩ := hfmt f hf ht
+      simp [ht, hFw]
+  refine ⟨hany, ?_⟩
+  rw [write_leaves_formatter_output _ hp2 (fun g hg hc => by rw [hch g hg] at hc; exact nomatch hc), hany]
+  congr 1
+  unfold nextRun
+  rw [List.map_map]
+  apply List.map_congr_left
+  intro f hf
+  cases ht : f.target
+  · simp [WFile.want, ht]
+  · obtain ⟨t, _, hw, hFw⟩ := hfmt f hf ht
+    rw [hw] at hFw
+    simp [WFile.want, ht] at hw ⊢
+    simp [hw, hFw]
+
+/-- A changed file that cannot be opened (a read-only file for a non-root user): the run fails
+    (status 1 through `format_exit_code_every_mode`'s rewrite step), the files before it in path
+    order are rewritten, that file and every later one are as they were. -/
+theorem write_failure_stops_walk (pre : List WFile) (f : WFile) (post : List WFile)
+    (hp : fmtStepOk (pre ++ f :: post) = true)
+    (hpre : ∀ g ∈ pre, g.changed = true → g.openable = true)
+    (hc : f.changed = true) (ho : f.openable = false) :
+    formatWrite (pre ++ f :: post) =
+      (pre.map (fun g => (g.path, g.want)) ++ (f.path, f.orig) :: untouched post, true, true) := by
+  unfold formatWrite
+  rw [hp, if_pos rfl, rewriteWalk_stops writeTrunc pre f post hpre hc ho]
+  simp only [WFile.written_eq_want]
+  congr 2
+  simp [hc]
+
+/-- Whatever happens (a failing open included): no file appears or disappears, and a file that is
+    not targeted, or already formatted, keeps its content. -/
+theorem write_touches_only_changed (fs : List WFile) :
+    (formatWrite fs).1.map Prod.fst = fs.map (·.path) ∧
+    ∀ f ∈ fs, f.changed = false → (f.path, f.orig) ∈ (formatWrite fs).1 := by
+  unfold formatWrite
+  cases fmtStepOk fs
+  · refine ⟨by simp [untouched, List.map_map, Function.comp_def], ?_⟩
+    intro f hf _
+    exact List.mem_map.mpr ⟨f, hf, rfl⟩
+  · exact rewriteWalk_frame writeTrunc fs
+
+/-- Why the open must truncate: written over the old content WITHOUT truncation a formatted text
+    that is shorter leaves the tail of the old content behind it — the file is not the formatter's
+    output (here it no longer parses) — while equal or longer texts come out right, which is why
+    only inputs that SHRINK when formatted show it (`writeOver_eq_iff`). -/
+theorem write_without_truncate_counterexample :
+    let f : WFile := { path := "a.proto".toList, orig := "message   A   {   }\n".toList,
+                       fmt := some "message A {}\n".toList, target := true, openable := true }
+    (rewriteWalk writeOver [f]).1 = [("a.proto".toList, "message A {}\n {   }\n".toList)] ∧
+    (rewriteWalk writeTrunc [f]).1 = [("a.proto".toList, "message A {}\n".toList)] ∧
+    (∀ old new : Str, writeOver old new = new ↔ old.length ≤ new.length) := by
+  refine ⟨by decide, by decide, writeOver_eq_iff⟩
+
+-- non-vacuity: a directory with a file that shrinks, one that grows, an untargeted and a formatted one
+def wEx : List WFile :=
+  [ { path := "a.proto".toList, orig := "message   A   {   }\n".toList, fmt := some "message A {}\n".toList, target := true, openable := true },
+    { path := "b.proto".toList, orig := "message B{}".toList, fmt := some "message B {}\n".toList, target := true, openable := true },
+    { path := "c.proto".toList, orig := "message  C{}".toList, fmt := some "message C {}\n".toList, target := false, openable := true },
+    { path := "d.proto".toList, orig := "message D {}\n".toList, fmt := some "message D {}\n".toList, target := true, openable := false } ]
+example : fmtStepOk wEx = true ∧ (∀ f ∈ wEx, f.changed = true → f.openable = true) := by decide
+example : formatWrite wEx =
+    ([("a.proto".toList, "message A {}\n".toList), ("b.proto".toList, "message B {}\n".toList),
+      ("c.proto".toList, "message  C{}".toList), ("d.proto".toList, "message D {}\n".toList)], false, true) := by decide
+example : (formatWrite (nextRun (fun t => some t) wEx)).2 = (false, false) := by decide
 
 -- non-vacuity: all 16 flag combinations exist, the 12 valid ones are clean on an all-ok run and
 -- give 100 exactly for the six with --exit-code when a difference exists
